@@ -24,7 +24,8 @@ CLAIM = dict(
           'keys), composes and splits keys with one separator default shared by flatten / unflatten, rejects keys containing it, and hands empty branches through; pack/unpack, '
           'stack/unstack, split/concat use the same axis on both sides, complementary slices and the tree structure of their shape argument; spectral down-sampling is a prefix '
           'slice and up-sampling a tail zero-pad of the same two trailing axes with the size relation enforced, and the wavenumber axes are prefix-stable (entry i does not depend on the '
-          'truncation). Also decided: an additional coordinate as long as the level axis is refused (axes are matched by shape). Does not decide bit-identical dataset round trips, shape collisions in the shape→dimension table, or that up-sampling represents the same function.'),
+          'truncation). Also decided: an additional coordinate as long as the level axis is refused (axes are matched by shape). Does not decide bit-identical dataset round trips, shape collisions in the shape→dimension table, or that up-sampling represents the same function.'
+          ' Later additions: level-collision guard of the shape→dimension table, holder discovery by return position.'),
     note='xarray / numpy / jax.tree_util semantics are trusted. Roles are identified by data flow and resolved names, not by local variable names.',
     technique='writer/reader table agreement over resolved classes and constants, element-kind inference for the duplicate checks, sibling-default agreement, structural matching of slices/pads',
 )
